@@ -144,6 +144,7 @@ type Exec struct {
 	loadSeen   map[string]bool
 	sliceParent map[*Term]sliceParentInfo // []float64 slice expression -> (sliced value, low index)
 	derefText   string
+	clauseDepth int // > 0 while a contract clause (incl. spec functions it calls) is being evaluated
 	equivRules  map[*Term][]equivRule
 	inEquivInst bool
 	pureFV     map[*Term]bool // function values known (by a resultpure contract) to be side-effect free
@@ -1511,6 +1512,11 @@ func sameCalls(a, b []callRec) bool {
 // branches that are unreachable under the current assumptions are dropped.
 func (x *Exec) pruneCond(s *State, c *Term) *Term {
 	if c == True || c == False {
+		return c
+	}
+	if len(x.clauseInfo) > 0 || x.clauseDepth > 0 {
+		// inside a contract clause / spec function: keep both branches, so that the term built for a spec function
+		// does not depend on the path condition (code-side and spec-side terms stay syntactically comparable)
 		return c
 	}
 	known := map[*Term]bool{}
